@@ -35,3 +35,80 @@ func (c *Ctx) Err() error {
 	return nil
 }
 func (c *Ctx) Value(any) any { return nil }
+
+// ---- replacements for context.WithCancel / WithTimeout / WithDeadline used *inside* instrumented code
+
+type childCtx struct {
+	parent   context.Context
+	done     chan struct{}
+	err      AtomicValue
+	deadline time.Time
+	once     Once
+}
+
+func (c *childCtx) Deadline() (time.Time, bool) {
+	if !c.deadline.IsZero() {
+		return c.deadline, true
+	}
+	return c.parent.Deadline()
+}
+func (c *childCtx) Done() <-chan struct{} { return c.done }
+func (c *childCtx) Err() error {
+	if v, ok := c.err.Load().(ctxErr); ok {
+		return v.e
+	}
+	return nil
+}
+func (c *childCtx) Value(k any) any { return c.parent.Value(k) }
+
+func (c *childCtx) cancel(e error) {
+	c.once.Do(func() {
+		c.err.Store(ctxErr{e})
+		Close(c.done)
+	})
+}
+
+func newChild(parent context.Context) *childCtx {
+	c := &childCtx{parent: parent, done: make(chan struct{})}
+	if pd := parent.Done(); pd != nil {
+		Go(func() {
+			switch Select(false, NewRecv(pd), NewRecv((<-chan struct{})(c.done))) {
+			case 0:
+				c.cancel(parent.Err())
+			}
+		})
+	}
+	return c
+}
+
+// CtxWithCancel replaces context.WithCancel.
+func CtxWithCancel(parent context.Context) (context.Context, context.CancelFunc) {
+	c := newChild(parent)
+	return c, func() { c.cancel(context.Canceled) }
+}
+
+// CtxWithDeadline replaces context.WithDeadline.
+func CtxWithDeadline(parent context.Context, d time.Time) (context.Context, context.CancelFunc) {
+	c := newChild(parent)
+	c.deadline = d
+	if dur := Until(d); dur <= 0 {
+		c.cancel(context.DeadlineExceeded)
+	} else {
+		tm := AfterFunc(dur, func() { c.cancel(context.DeadlineExceeded) })
+		return c, func() { tm.Stop(); c.cancel(context.Canceled) }
+	}
+	return c, func() { c.cancel(context.Canceled) }
+}
+
+// CtxWithTimeout replaces context.WithTimeout.
+func CtxWithTimeout(parent context.Context, d time.Duration) (context.Context, context.CancelFunc) {
+	return CtxWithDeadline(parent, Now().Add(d))
+}
+
+// Tick replaces time.Tick.
+func Tick(d time.Duration) <-chan time.Time {
+	if d <= 0 {
+		return nil
+	}
+	return NewTicker(d).C
+}
